@@ -249,9 +249,13 @@ def server_scenario(ctx):
     cfg = dict(audio=[8, 12, 13][ctx.choose('audio', 3)], io=[(2, 2), (0, 2), (1, 1)][ctx.choose('io', 3)],
                logins=1 + ctx.choose('logins', 3), res_a=ctx.choose('res_a', 2), control=[6, 8][ctx.choose('control', 2)],
                res_c=ctx.choose('res_c', 2), buffers=[6, 8][ctx.choose('buffers', 2)], res_b=ctx.choose('res_b', 2))
+    # the number of logins the running server REPORTS when the client registers may differ from the client's option
+    # (None: nothing reported, the option counts)
+    cfg['reported'] = [None, 1, 2, 3][ctx.choose('reported', 4)]
     fp_ = sum(cfg['io'])
-    if min((cfg['audio'] - fp_) // cfg['logins'] - cfg['res_a'], cfg['control'] // cfg['logins'] - cfg['res_c'],
-           cfg['buffers'] // cfg['logins'] - cfg['res_b']) <= 0:
+    nl_ = cfg['reported'] or cfg['logins']
+    if min(min((cfg['audio'] - fp_) // k_ - cfg['res_a'], cfg['control'] // k_ - cfg['res_c'],
+               cfg['buffers'] // k_ - cfg['res_b']) for k_ in (nl_, cfg['logins'])) <= 0:
         raise PathAbort('degenerate options: a client share not larger than its reserved count')
     msg = server_partitions(cfg)
     if msg:
@@ -278,8 +282,12 @@ def server_partitions(cfg):
     try:
         fp = opt.first_private_bus()
         got = {'audio': {}, 'control': {}, 'buffer': {}}
-        for cid in range(cfg['logins']):
-            s._set_client_id(cid)
+        nl = cfg.get('reported') or cfg['logins']
+        for cid in range(min(nl, cfg['logins'])):
+            if cfg.get('reported'):
+                s._status_watcher._handle_login_done(cid, cfg['reported'])
+            else:
+                s._set_client_id(cid)
             if s.client_id != cid:
                 return f'client id {cid} refused with max_logins {cfg["logins"]}'
             for kind, mk in (('audio', lambda: bus_.AudioBus(1, s).index), ('control', lambda: bus_.ControlBus(1, s).index),
@@ -295,9 +303,9 @@ def server_partitions(cfg):
                     idx.append(v)
                 got[kind][cid] = idx
         rng = {'audio': (fp, cfg['audio']), 'control': (0, cfg['control']), 'buffer': (0, cfg['buffers'])}
-        share = {'audio': (cfg['audio'] - fp) // cfg['logins'] - cfg['res_a'],
-                 'control': cfg['control'] // cfg['logins'] - cfg['res_c'],
-                 'buffer': cfg['buffers'] // cfg['logins'] - cfg['res_b']}
+        share = {'audio': (cfg['audio'] - fp) // nl - cfg['res_a'],
+                 'control': cfg['control'] // nl - cfg['res_c'],
+                 'buffer': cfg['buffers'] // nl - cfg['res_b']}
         for kind in got:
             lo, hi = rng[kind]
             seen = {}
